@@ -4,7 +4,8 @@ from .vals import Shape
 
 
 class LoopSpec:
-    def __init__(self, invariant=(), modifies=(), decreases=None, unroll=False, index=None):
+    def __init__(self, invariant=(), modifies=(), decreases=None, unroll=False, index=None, assume=()):
+        self.assume = list(assume)      # definitional unfoldings of spec functions, assumed at the loop head
         self.invariant = list(invariant)
         self.modifies = list(modifies)
         self.decreases = decreases
@@ -16,7 +17,7 @@ class FnContract:
     def __init__(self, cset, key, file=None, qualname=None, params=None, requires=(), ensures=(), raises=None,
                  ensures_exc=(), modifies=(), loops=None, external=False, model=None, inline=False, result=None,
                  is_property=False, setter=False, note=None, lets=None, await_havoc=None, trusted_reason=None,
-                 pure=False, emits=None, opaque_calls=(), findings=()):
+                 pure=False, emits=None, opaque_calls=(), findings=(), no_inv=False, defs=()):
         self.cset = cset
         self.key = key
         self.file = file
@@ -41,6 +42,8 @@ class FnContract:
         self.pure = pure
         self.emits = emits
         self.opaque_calls = list(opaque_calls)
+        self.defs = list(defs)          # definitional unfoldings of spec functions (assumed, never proved)
+        self.no_inv = no_inv            # helper that neither assumes nor re-establishes the class invariants
         self._extracted = None
 
     @property
